@@ -19,6 +19,14 @@
    is what FileAnonymizer.anonymize_io (in-memory stream API) returns for it.
 4. Each run is projected to events (digests only) and judged by TLC against
    R (FilesTrace.tla).  M's prediction is compared as well: drift, no verdict.
+5. Isolation against the tree WITHOUT the failing file (clause
+   IsolationVsAbsent, modelled in FilesIso.tla: proved for the eager reader,
+   refuted by TLC for a line-by-line reader): hand-built trees whose files
+   carry DISTINCT secrets, a 22-34 KB failing file with one undecodable byte
+   at offset 0 / inside the first read buffer / at 8191, 8192, 8193 / far
+   beyond / last byte, other files listed before and after it; the same entry
+   point (anonymize_files, main) is run on the tree with and without the
+   failing file(s) and TLC compares the digests of every other file.
 """
 import concurrent.futures
 import itertools
@@ -160,7 +168,7 @@ def worker_main(jobfile, outfile, fsroot):
     groups = json.load(open(jobfile, encoding="utf-8"))
     with open(outfile, "w", encoding="utf-8") as fh:
         for g in groups:
-            res = W.run_group(g, fsroot, common.REPO)
+            res = W.run_iso(g, fsroot, common.REPO) if g.get("kind") == "iso" else W.run_group(g, fsroot, common.REPO)
             fh.write(json.dumps(res) + "\n")
 
 
@@ -169,7 +177,8 @@ def run_groups(groups, nproc=common.NPROC):
     shards = [[] for _ in range(nproc)]
     # balance by number of executions
     loads = [0] * nproc
-    cost = lambda g: sum(len(s["entries"]) + 8 * sum(e.startswith("cli") for e in s["entries"]) for s in g["scenarios"]) + 2
+    cost = lambda g: (8 * len(g["entries"]) if g.get("kind") == "iso" else
+                      sum(len(s["entries"]) + 8 * sum(e.startswith("cli") for e in s["entries"]) for s in g["scenarios"]) + 2)
     for g in sorted(groups, key=cost, reverse=True):
         j = loads.index(min(loads))
         shards[j].append(g)
@@ -250,6 +259,12 @@ def run(pid, tier):
     if thorough:
         model_jobs.append(("FilesImpl", "FilesM3.cfg", gen_cfg(3, False, False, allorders=True, tail=M_TAIL),
                            "M => R + R theorems on M, <= 3 files, every listing order (6 per tree), environment fixed"))
+    model_jobs.append(("FilesIso", "FilesIso.cfg", open(os.path.join(tlc.SPEC, "FilesIso.cfg")).read(),
+                       "IsolationVsAbsent holds when a failing file is decoded before any line is handled (N=4 files, any failing position)"))
+    lazy = tlc.run("FilesIso", "FilesIsoLazy.cfg", workers=2)
+    if lazy.invariant_violated != "IsolationVsAbsent":
+        raise common.MachineryError("FilesIso: the lazy-reading machine must refute IsolationVsAbsent (vacuity guard):\n" + lazy.out[-1500:])
+    ck.notes["model_prediction"] = "FilesIso with Lazy=TRUE: TLC refutes IsolationVsAbsent (lines handled before the failure shift later files' pseudonym numbers)"
     pool = concurrent.futures.ThreadPoolExecutor(max_workers=3)
     futs = [(m, c, what, pool.submit(tlc.run, m, c, workers=6, extra={c: text}, timeout=3000)) for m, c, text, what in model_jobs]
 
@@ -313,15 +328,41 @@ def run(pid, tier):
     scn_of = {s["sid"]: (g, s) for g in groups for s in g["scenarios"]}
 
     tm["generate_s"] = round(time.time() - t0, 1)
+    # distinct-secret family for IsolationVsAbsent (hand-built trees; the clause is modelled in FilesIso.tla)
+    if thorough:
+        combos = [(sh, oc, ft) for sh in sorted(W.ISO_SHAPES) for oc in W.ISO_OFFSETS for ft in ("P", "PAWN")]
+    else:
+        combos = [(sh, oc, "P") for sh in ("S1", "S2") for oc in ("offset0", "first-buffer", "at-8192", "beyond-20000")] + \
+                 [("S3", "beyond-20000", "P"), ("S4", "at-8193", "PAWN")]
+    iso_jobs = [{"kind": "iso", "gid": len(groups) + i, "shape": sh, "offset_class": oc, "feat": ft, "entries": ["dir", "main"]}
+                for i, (sh, oc, ft) in enumerate(combos)]
+    iso_by_gid = {j["gid"]: j for j in iso_jobs}
     # ---- 3. real runs ---------------------------------------------------------
     t0 = time.time()
-    outs = run_groups(groups)
+    outs = run_groups(groups + iso_jobs)
     tm["real_runs_s"] = round(time.time() - t0, 1)
     traces, meta = [], []
     probes_bad = 0
     nontrivial_files = 0
     entries_seen = {}
+    iso_stats = {"executions": 0, "unstable_listing_order(skipped)": 0, "other_files_before_failing": 0,
+                 "other_files_after_failing": 0, "other_files_between_failing": 0, "other_files_rewritten": 0}
     for go in outs:
+        if go.get("kind") == "iso":
+            job = iso_by_gid[go["gid"]]
+            for res_ in go["results"]:
+                iso_stats["executions"] += 2
+                if not res_["stable_order"]:
+                    iso_stats["unstable_listing_order(skipped)"] += 1
+                    continue
+                for p in res_["position"].values():
+                    iso_stats["other_files_%s_failing" % p] += 1
+                iso_stats["other_files_rewritten"] += res_["info"]["files_rewritten"]
+                for which in ("absent", "with"):
+                    traces.append(res_["events"][which])
+                    meta.append(("iso", job, res_, which))
+                ck.count(("iso", job["shape"], job["offset_class"], job["feat"], res_["entry"]))
+            continue
         g = by_gid[go["gid"]]
         if not go["probe_ok"]:
             probes_bad += 1
@@ -352,6 +393,22 @@ def run(pid, tier):
     ck.events += sum(len(t) for t in traces)
     ck.notes["trace_states"] = states
     for ti, (k, clause) in sorted(rejected.items()):
+        if meta[ti][0] == "iso":
+            _, job, res_, which = meta[ti]
+            ev = traces[ti][k]
+            nfail = sum(1 for _, _, role in W.ISO_SHAPES[job["shape"]] if role == "fail")
+            if clause == "IsolationVsAbsent":
+                key = "clause=IsolationVsAbsent entry=%s badbyte=%s position=%s failing-files=%d" % (
+                    res_["entry"], job["offset_class"], res_["position"].get(ev.get("id")), nfail)
+            else:
+                key = "clause=%s entry=%s family=distinct-secrets run=%s badbyte=%s" % (clause, res_["entry"], which, job["offset_class"])
+            what = ("%s: entry=%s tree=%s options=%s listing order=%s; failing file(s): %s bytes, first undecodable byte at %s; %s %s; reports=%s raised=%s" %
+                    (clause, res_["entry"], job["shape"], job["feat"], res_["order"], res_["info"]["sizes"], res_["info"]["bad_byte_offsets"],
+                     ev.get("id", "end-of-run"), {x: ev[x] for x in ("fault", "pre", "out", "absent", "allfailed", "reported") if x in ev},
+                     res_["info"]["reports"][:2], res_["info"]["raised"]))
+            ck.violation(key, what, {"iso_job": job, "entry": res_["entry"], "run": which, "events": traces[ti],
+                                     "failing_event": k, "clause": clause})
+            continue
         g, sc, res_, tol = meta[ti]
         ev = traces[ti][k]
         if tol and (clause == "EntryPointsDifferNewline" or rejected.get(ti - 1, (None, "EntryPointsDifferNewline"))[1] != "EntryPointsDifferNewline"):
@@ -379,6 +436,9 @@ def run(pid, tier):
     ck.notes["phase_wall"] = tm
 
     ck.notes["scenarios"] = gen_counts
+    ck.notes["isolation_vs_absent_family"] = dict(iso_stats, jobs=len(iso_jobs),
+                                                  what="trees with distinct secrets per file, failing file 22-34 KB with one 0xff byte at the stated offset; "
+                                                       "baseline = same tree without the failing file(s); entries dir + main")
     ck.notes["executions_by_entry_point"] = entries_seen
     ck.notes["groups(tree x environment x family)"] = len(groups)
     ck.notes["files_whose_reference_differs_from_input"] = nontrivial_files
@@ -404,6 +464,22 @@ def run(pid, tier):
 def replay(pid, path):
     """Re-run the execution stored in a replay file on the real code and have TLC judge it again."""
     case = json.load(open(path))["case"]
+    if "iso_job" in case:
+        job = dict(case["iso_job"], entries=[case["entry"]])
+        res_ = W.run_iso(job, tlc.subdir("fs"), common.REPO)["results"][0]
+        if not res_["stable_order"]:
+            print("%s replay: directory listing order of the two runs differs, nothing to compare" % pid)
+            return 0
+        traces = [res_["events"]["absent"], res_["events"]["with"]]
+        rejected, _ = validate_traces("FilesTrace", "FilesTrace.cfg", traces)
+        bad = 0
+        for ti, (k, clause) in sorted(rejected.items()):
+            ev = traces[ti][k]
+            print("REPLAY VIOLATION: clause=%s run=%s at %s %s" % (clause, ("absent", "with")[ti], ev.get("id", "end-of-run"),
+                                                                 {x: ev[x] for x in ("fault", "out", "absent", "allfailed", "reported") if x in ev}))
+            bad += 1
+        print("%s replay: %d traces judged by TLC, %d violations" % (pid, len(traces), bad))
+        return 1 if bad else 0
     g = dict(case["group"])
     sc = dict(case["scenario"], entries=[case["entry"]])
     g["scenarios"] = [sc]
